@@ -1,11 +1,13 @@
 (** Extraction of the executable C16 models to OCaml (ExtrOcamlBasic only: N/positive/nat stay inductive).
     The path is relative to the directory coqc runs in (coq/). *)
 From Coq Require Import Extraction ExtrOcamlBasic.
-From XV Require Import C16.Model16 C16.Spec16 C16.ModelObj16 C16.Containers16 C16.Helpers16 Gen.GenSerialize.
+From XV Require Import C16.Model16 C16.Spec16 C16.ModelObj16 C16.Containers16 C16.Helpers16 Gen.GenSerialize
+  C16.ModelFields16 C16.Fields16 Gen.GenSerFields.
 Extraction Language OCaml.
 Extraction "../ocaml/C16/gen_c16.ml"
   w_all r_all pool_store pool_load rq_of spec_roundtrip
   ser_classes ser_parsed ser_level ser_bufsize class_ok class_obligation asymmetric_classes open_abstract_classes
   ser_containers ser_container_inserts asymmetric_containers tmpl_covered inserts_ok pinned_container_inserts
   store_all load_all rq_ev reload
-  ser_helpers ser_helper_conds pinned_helper_conds failing_helpers helpers_covered.
+  ser_helpers ser_helper_conds pinned_helper_conds failing_helpers helpers_covered
+  ser_fields ser_enum_fields transient_fields known_field_gaps uncovered open_gaps transient_precise fields_ok.
